@@ -48,6 +48,7 @@ type FuncContract struct {
 	Trusted     bool
 	Functional  bool // the result is an uninterpreted function of the receiver and arguments
 	MayPanic    bool
+	PanicCond   *Clause // `maypanic e`: a panic is possible only in entry states satisfying e
 	Loops       map[int]*LoopContract
 	ResultNames []string
 	ParamNames  []string
@@ -330,6 +331,13 @@ func (cs *ContractSet) loadFile(path string, p *packages.Package) error {
 				cur.Trusted = true
 			case "maypanic":
 				cur.MayPanic = true
+				if rest != "" {
+					c, err := mkClause(rest)
+					if err != nil {
+						return err
+					}
+					cur.PanicCond = c
+				}
 			case "results":
 				for _, n := range strings.Split(rest, ",") {
 					cur.ResultNames = append(cur.ResultNames, strings.TrimSpace(n))
